@@ -76,6 +76,8 @@ CATS_OK = ("length", "depth")
 K_LIST, K_TUPLE, K_ND = "list", "tuple", "ndarray"
 KINDS = (K_LIST, K_TUPLE, K_ND)
 _TRACE = {}
+K32 = 64 * 2 ** 29      # K * eps(float32) / eps(float64): the bound of `common.close` for a numpy.float32 element
+DTYPES = ("int32", "int64", "float32")
 
 
 # ------------------------------------------------------------------------------------------ encoding
@@ -92,8 +94,13 @@ def dec(t):
     return t if isinstance(t, int) else float.fromhex(t)
 
 
-def vspec(kind, nums):
-    return dict(k=kind, v=[enc(x) for x in nums])
+def vspec(kind, nums, dt=None):
+    """`dt`: the dtype of an ndarray container other than float64 ("int32", "int64", "float32"); the numbers are then
+    ints / float32-representable, so the container holds exactly them"""
+    d = dict(k=kind, v=[enc(x) for x in nums])
+    if dt is not None:
+        d["dt"] = dt
+    return d
 
 
 def pspec(kind, nums_, w):
@@ -121,7 +128,7 @@ def mk_vals(spec):
         return xs
     if spec["k"] == K_TUPLE:
         return tuple(xs)
-    return numpy.array(xs, dtype=float)
+    return numpy.array(xs, dtype=spec.get("dt") or float)
 
 
 def vals_line(spec):
@@ -224,8 +231,12 @@ def canon(obj, points=False):
         xs, k = [], k + "?"
     dim = obj._dimension if not hasattr(obj, "dimension") else obj.dimension
     q = getattr(obj, "_quantity", None)
-    return dict(dim=dim if isinstance(dim, int) and not isinstance(dim, bool) else repr(dim), k=k, len=n, xs=xs,
-                unit=str(sym(q.GetUnit())) if q is not None else "?", cat=str(sym(q.GetCategory())) if q is not None else "?")
+    out = dict(dim=dim if isinstance(dim, int) and not isinstance(dim, bool) else repr(dim), k=k, len=n, xs=xs,
+               unit=str(sym(q.GetUnit())) if q is not None else "?", cat=str(sym(q.GetCategory())) if q is not None else "?")
+    f32 = [i for i, v in enumerate(seq) if isinstance(v, numpy.float32)]
+    if f32:   # elements the real code holds in single precision: their float bound is float32's
+        out["f32"] = f32
+    return out
 
 
 def state_line(st):
@@ -695,7 +706,31 @@ def construction_cases(ctx, rng):
                                               dimension=dimension, inst=inst))
 
 
-def make_source(rng, dim=None, kind=None, q=None, cls=None):
+def typed_nums(rng, n, dt):
+    """numbers an ndarray of dtype `dt` holds exactly: small non-zero ints, or float32-representable fractions"""
+    import numpy
+
+    if dt != "float32":
+        return [rng.choice((-1, 1)) * rng.randint(1, 9) for _ in range(n)]
+    return [float(numpy.float32(x if x != 0 else 1.5)) for x in (round(rng.uniform(-100, 100), 3) for _ in range(n))]
+
+
+def frac(rng):
+    """a FRACTIONAL amount (no int / float32 container can hold it): small, below one, negative, long mantissa"""
+    r = rng.random()
+    x = (rng.choice((0.5, 0.25, -2.75, 0.1, -0.3, 1.5)) if r < 0.3 else round(rng.uniform(-1, 1), 3) if r < 0.55 else
+         round(rng.uniform(-100, 100), 3) if r < 0.85 else rng.uniform(-1e4, 1e4))
+    return x if x != int(x) else x + 0.37
+
+
+def typed_source(rng, dim, dt, q, cls="none"):
+    return dict(route="init", cls=cls, dim=dim, form="cat", c={"qty": q}, values=vspec(K_ND, typed_nums(rng, dim, dt), dt), nargs=2)
+
+
+def make_source(rng, dim=None, kind=None, q=None, cls=None, typed=False):
+    if typed and rng.random() < 0.3:   # an ndarray container of an integer dtype / of float32
+        cls = "none" if rng.random() < 0.85 else "v3"
+        return typed_source(rng, 3 if cls == "v3" else rng.choice((2, 3, 3, 4)), rng.choice(DTYPES), rng.choice((QL, QL, QD, QC, "empty")), cls)
     dim = dim or rng.choice((2, 2, 3, 3, 3, 4, 5))
     cls = cls or rng.choice(("none",) * 6 + ("v3",))
     if cls == "v3":
@@ -769,6 +804,46 @@ def single_op_cases(ctx, rng):
                             for tup in ([], [enc(x)], [enc(x), "cm"], [None, "ft"], [enc(x), "cm", "depth"], [enc(x), None, "depth"],
                                         [enc(x), "kg"], [enc(x), "m", "length"], [enc(x), "nope"], [enc(x), "kg", "mass"], [None, None, None]):
                                 yield one(dict(do="changingIndex", index=index, uvu=uvu, value=dict(tup=tup)))
+
+
+def typed_ci_cases(ctx, rng):
+    """ChangingIndex / IndexAsScalar on ndarray containers of an INTEGER dtype and of float32, with FRACTIONAL amounts in
+    every form (number, (v,), (v, unit), (v, unit, category), Scalar in the same and in another unit, both settings of
+    use_value_unit and the default), for every index of the array and one on each side outside it; then
+    IndexAsScalar(index) of the result (a two-step chain), which must give the supplied amount back."""
+    for dt in DTYPES:
+        for dim, q in ((2, QL), (3, QL), (3, QC), (3, "empty"), (4, QD)):
+            own = None if q == "empty" else q
+            for index in range(-dim - 1, dim + 1):
+                src = typed_source(rng, dim, dt, q)
+
+                def one(o):
+                    return dict(op="step", _t=dict(src=src, o=o))
+
+                yield one(dict(do="indexAsScalar", index=index))
+                for oq in ((QL, QC, QD) if q != "empty" else ("empty", QL)):
+                    yield one(dict(do="indexAsScalar", index=index, quantity=oq))
+                values = [dict(num=enc(frac(rng))), dict(tup=[enc(frac(rng))])]
+                if own is not None:
+                    other = QC if own["unit"] != "cm" else QL
+                    values += [dict(tup=[enc(frac(rng)), own["unit"]]), dict(tup=[enc(frac(rng)), other["unit"]]),
+                               dict(tup=[enc(float(rng.randint(1, 9))), "cm" if own["unit"] == "m" else "m"]),
+                               dict(tup=[None, other["unit"]]), dict(tup=[enc(frac(rng)), other["unit"], other["cat"]]),
+                               dict(scalar=dict(q=own, v=enc(frac(rng)))), dict(scalar=dict(q=other, v=enc(frac(rng)))),
+                               dict(scalar=dict(q=other, v=enc(float(rng.randint(1, 9))))), dict(scalar=dict(q=QD, v=enc(frac(rng)))),
+                               dict(scalar=dict(q=QK, v=enc(frac(rng))))]
+                else:
+                    values += [dict(scalar=dict(q="empty", v=enc(frac(rng)))), dict(scalar=dict(q=QL, v=enc(frac(rng)))),
+                               dict(tup=[enc(frac(rng)), "m"])]
+                for value in values:
+                    for uvu in (True, False, None):
+                        o = dict(do="changingIndex", index=index, value=value)
+                        if uvu is not None:
+                            o["uvu"] = uvu
+                        yield one(o)
+                        if uvu is not False or "num" in value:   # ... and reading the new element back
+                            yield dict(op="chain", _t=dict(cmds=[dict(make=src), dict(src=0, o=o), dict(src=0, o=dict(do="indexAsScalar", index=index)),
+                                                                 dict(src=0, o=dict(do="indexAsScalar", index=index, quantity=own or "empty"))]))
 
 
 SLICE_PARTS = (None, None, 0, 1, 2, 3, -1, -2, -3, 5, -5, 9, -9)
@@ -922,8 +997,10 @@ def random_op(rng, store_size):
             return dict(do="arith", aop=aop, rhs=dict(other=rng.randrange(store_size)))
         return dict(do="arith", aop=aop, rhs=dict(arr=arr_operand(rng, rng.choice((2, 3, 3, 3, 4, 1)))))
     index = rng.choice((0, 1, 2, -1, -2, rng.randint(-7, 6)))
-    x = nums(rng, 1)[0]
+    x = nums(rng, 1)[0] if rng.random() < 0.6 else frac(rng)
     k = rng.random()
+    if k < 0.12:
+        return dict(do="indexAsScalar", index=index, **({} if rng.random() < 0.5 else dict(quantity=rng.choice(CI_SCALARS))))
     if k < 0.3:
         value = dict(num=enc(x))
     elif k < 0.65:
@@ -939,7 +1016,7 @@ def random_op(rng, store_size):
 
 def chain_cases(ctx, rng, n):
     for i in range(n):
-        cmds = [dict(make=make_source(rng))]
+        cmds = [dict(make=make_source(rng, typed=True))]
         if rng.random() < 0.5:
             r = rng.choice((dict(route="cea", cls="none", dimension=rng.choice((1, 2, 3, 3))),
                             dict(route="fromScalars", cls=rng.choice(("none", "v3")), scalars=[dict(q=rng.choice((QL, QC, QD)), v=enc(x)) for x in nums(rng, rng.choice((0, 2, 3)))]),
@@ -1075,7 +1152,7 @@ def setup(ctx):
 def cases(ctx):
     rng = ctx.fresh_rng("C11corr")
     cid = 0
-    for gen in (construction_cases(ctx, rng), single_op_cases(ctx, rng), derived_op_cases(ctx, rng),
+    for gen in (construction_cases(ctx, rng), single_op_cases(ctx, rng), derived_op_cases(ctx, rng), typed_ci_cases(ctx, rng),
                 chain_cases(ctx, rng, 500 if ctx.tier == "quick" else 20000),
                 curve_grid_cases(ctx), curve_read_cases(ctx), curve_cases(ctx, rng, 300 if ctx.tier == "quick" else 5000)):
         for c in gen:
@@ -1086,7 +1163,7 @@ def cases(ctx):
 
 def search(ctx):
     rng = ctx.fresh_rng("C11search")
-    for gen in (construction_cases(ctx, rng), single_op_cases(ctx, rng), derived_op_cases(ctx, rng), chain_cases(ctx, rng, 2000), curve_grid_cases(ctx),
+    for gen in (typed_ci_cases(ctx, rng), construction_cases(ctx, rng), single_op_cases(ctx, rng), derived_op_cases(ctx, rng), chain_cases(ctx, rng, 2000), curve_grid_cases(ctx),
                 curve_read_cases(ctx), curve_cases(ctx, rng, 1000)):
         for c in gen:
             c["cid"] = -1
@@ -1129,6 +1206,16 @@ def run_chain(t):
             step["out"] = dict(err=err_kind(e), exc=type(e).__name__)
         else:
             step["out"] = canon_result(r)
+            if "scalar" in step["out"] and step["kind"] == "op" and states[si].get("f32") and o["do"] == "indexAsScalar" and \
+                    (o["index"] % max(1, states[si]["len"])) in states[si]["f32"]:
+                step["out"]["scalar"]["f32"] = True   # read off an element the real code holds in float32
+            if "ok" in step["out"] and step["kind"] == "op" and o["do"] != "changingIndex":
+                # a result computed FROM single-precision elements carries their rounding whatever type it has itself
+                # (float32 * float is a float32; float64 - float32 is a float64 with a float32's error);
+                # ChangingIndex only converts and copies: there the type of each element tells
+                oth = o.get("rhs", {}).get("other") if o["do"] == "arith" else None
+                if states[si].get("f32") or (oth is not None and states[oth].get("f32")):
+                    step["out"]["ok"]["f32all"] = True
             if "ok" in step["out"]:
                 store.append(r)
                 states.append(step["out"]["ok"])
@@ -1415,7 +1502,7 @@ def show(c):
 COPY_ONLY = {"make", "pickle", "copy"}
 
 
-def cmp_array(real, mo, exact_numbers, ctx=None):
+def cmp_array(real, mo, exact_numbers, ctx=None, single=False):
     """real: canon() dict; mo: the model's ok-object"""
     for k_real, k_mod in (("dim", "dim"), ("len", "len")):
         if str(real[k_real]) != str(mo[k_mod]):
@@ -1433,6 +1520,10 @@ def cmp_array(real, mo, exact_numbers, ctx=None):
             fa, fb = qparse(a), qparse(b)
             if exact_numbers:
                 return "value %d differs where numbers are only copied: impl %s model %s" % (i, float(fa), float(fb))
+            if single or real.get("f32all") or i in real.get("f32", ()):   # held as / computed from numpy.float32: eps of float32
+                if not close(float(fa), fb, qparse(mo["M"][i]), k=K32):
+                    return "value %d (float32): impl %r is not within K*eps32*M of the exact %r" % (i, float(fa), float(fb))
+                continue
             if not close(float(fa), fb, qparse(mo["M"][i])):
                 return "value %d: impl %r is not within K*eps*M of the exact %r" % (i, float(fa), float(fb))
     return None
@@ -1453,7 +1544,7 @@ def cmp_outcome(io, mo, exact_numbers):
             return "impl returned a Scalar, model an array"
         if s["unit"] != m["q"]["unit"] or s["cat"] != m["q"]["cat"]:
             return "scalar quantity differs"
-        if s["v"] != m["v"] and not close(float(qparse(s["v"])), qparse(m["v"]), qparse(m["M"])):
+        if s["v"] != m["v"] and not close(float(qparse(s["v"])), qparse(m["v"]), qparse(m["M"]), **(dict(k=K32) if s.get("f32") else {})):
             return "scalar value: impl %r model %r" % (float(qparse(s["v"])), float(qparse(m["v"])))
         return None
     if "v" in mo["ok"]:
@@ -1648,8 +1739,10 @@ def agree(c, io, mo, ctx):
         hs = hist["steps"]
         if len(hs) != len(executed):
             return "history answered %d steps for %d" % (len(hs), len(executed))
+        single = False   # single-precision numbers entered the history: every later number may descend from them
         for i, ((cmd, s), m) in enumerate(zip(executed, hs)):
             out = s["out"]
+            single = single or bool("ok" in out and (out["ok"].get("f32") or out["ok"].get("f32all")))
             if "scalar" in out or "plain" in out:
                 continue
             if ("err" in out) != ("err" in m):
@@ -1658,7 +1751,7 @@ def agree(c, io, mo, ctx):
                 if out["err"] != m["err"]:
                     return "history step %d: error kinds differ (%s / %s)" % (i, out["err"], m["err"])
                 continue
-            why = cmp_array(out["ok"], m["ok"], False)
+            why = cmp_array(out["ok"], m["ok"], False, single=single)
             if why:
                 return "history step %d: %s" % (i, why)
         return None
@@ -1818,9 +1911,16 @@ def _same_dimension(u1, u2):
     return db.GetQuantityType(u1) is not None and db.GetQuantityType(u1) == db.GetQuantityType(u2)
 
 
-def _near(a, b, *mags):
-    tol = 1e-9 * (abs(a) + abs(b) + sum(abs(m) for m in mags)) + 1e-300
+def _near(a, b, *mags, single=False):
+    """`single`: the real code holds / computed the number in numpy.float32 (eps 6e-8 instead of 1e-16)"""
+    tol = (1e-5 if single else 1e-9) * (abs(a) + abs(b) + sum(abs(m) for m in mags)) + 1e-300
     return abs(a - b) <= tol
+
+
+def _is_f32(v):
+    import numpy
+
+    return isinstance(v, numpy.float32)
 
 
 def _check_op(src, o, store):
@@ -1926,7 +2026,7 @@ def _check_op(src, o, store):
             if k == j:
                 continue
             want = _phys(src.unit, r.unit, src_vals[k])
-            if not _near(float(r.values[k]), want):
+            if not _near(float(r.values[k]), want, single=_is_f32(r.values[k])):
                 return dict(clause="ChangingIndex: the other elements are physically unchanged", op=o, index=k,
                             got=float(r.values[k]), want=want, unit=r.unit), r
     if do == "indexAsScalar":
@@ -1939,7 +2039,7 @@ def _check_op(src, o, store):
         if not isinstance(r, Scalar) or r.GetQuantity() != q:
             return dict(clause="IndexAsScalar returns a Scalar of the requested quantity", op=o, observed=repr(r)), None
         want = _phys(src.unit, q.GetUnit(), src_vals[j])
-        if not _near(float(r.GetValue()), want):
+        if not _near(float(r.GetValue()), want, single=_is_f32(src.values[j])):
             return dict(clause="IndexAsScalar(i) is the i-th amount in the requested unit", op=o, got=float(r.GetValue()), want=want), None
         return None, None
     return None, (r if isinstance(r, FixedArray) else None)
